@@ -215,8 +215,11 @@ class Tr:
                         elif self.flow:
                             env[tg.id] = ("var", f"loc:{k}.{fname}.{tg.id}")
                         else:
-                            # an untranslatable array computation inside a component method: visible as non-elementwise
-                            env[tg.id] = ("nonElem", f"opaque:{tg.id}", ("var", f"loc:{k}.{fname}.{tg.id}"))
+                            # an untranslatable array computation inside a component method: visible as non-elementwise;
+                            # inside an inlined call every invocation gets its own name (two calls are two values)
+                            self.uid = getattr(self, "uid", 0) + 1
+                            suffix = f"#{self.uid}" if self.depth > 1 else ""
+                            env[tg.id] = ("nonElem", f"opaque:{tg.id}{suffix}", ("var", f"loc:{k}.{fname}.{tg.id}{suffix}"))
                         self.notes.append(f"{k}.{fname}: {tg.id} opaque ({e})")
             elif isinstance(s, ast.Assign) and len(s.targets) == 1 and isinstance(s.targets[0], ast.Tuple) and not isinstance(s.value, ast.Tuple) \
                     and getattr(self, "plain_locals", False):
